@@ -46,6 +46,7 @@ class World:
         self.vcount = 0              # value counter: every record distinct
         self.next_tick = 1.0
         self.transitions = 0
+        self.packed = False
         self.record = record
         if record:
             iolog.install()
@@ -91,6 +92,8 @@ class World:
         unused = [o for o in spec.oids if m.cur(self.oid(o)) is None]
         ops = []
         for k in spec.kinds:
+            if self.packed and k in ('undo', 'undo2', 'stale', 'restore'):
+                continue    # the list model does not follow a pack
             if k == 'new':
                 # symmetry: only the lowest unused oid of each class
                 seen = set()
@@ -157,6 +160,9 @@ class World:
                     ops.append(('reopen',))
             elif k == 'restore':
                 ops += self._restore_ops(spec, live, unused)
+            elif k == 'pack':
+                if m.txns:
+                    ops.append(('pack',))
             else:
                 raise ValueError(k)
         return ops
@@ -208,6 +214,15 @@ class World:
             self.open()
             return 'reopen'
         self.tick()
+        if k == 'pack':
+            from ZODB.serialize import referencesf
+            self.packed = True
+            r = call(self.storage.pack, env.CLOCK.now, referencesf, gc=False)
+            if isinstance(r, Exc):
+                from ZODB.POSException import POSError
+                self.bad('step', 'pack:%s' % r.name, dict(got=repr(r)))
+                return 'pack-error'
+            return 'pack'
         if k == 'new':
             return self.txn([('store', O(op[1]), Z64, self.rec(spec, op[1]))])
         if k == 'new2':
